@@ -252,6 +252,9 @@ def run(ctx):
          "cancel(id) does not pop exactly the given id", cs.node)
     # ---- R15 a declared (even empty / falsy) input is handed to the spawned child ------------------------------
     shared.none_is_the_only_absence(ctx, "R15", [("Interpreter", "_spawn_actor", "child_input"), ("SyncInterpreter", "_spawn_actor", "child_input")])
+    # ---- R16 spawning reads the service registry, it does not consume it -------------------------------------------------
+    shared.definition_is_read_only(ctx, "R16", ("interpreter", "sync_interpreter"),
+                                   "the first spawn / send consumes the entry: the second spawn of the same service fails, the second delivery has no target")
     # ---- R13 every child interpreter the engine creates is wired to its parent before it runs ---------------
     # (sendParent / escalate resolve through child.parent; addressing, the registry and the snapshot use child.id)
     n13 = 0
